@@ -156,7 +156,7 @@ impl Property for C17 {
         }
     }
     fn rule(&self) -> &'static str {
-        "runs execute in child processes (AddressSanitizer/LeakSanitizer build when available) with an intent log; one run = 16 generated scenarios (document, mirrored handler scripts incl. streaming handlers with drop callbacks and end-tag handlers, bundled registrations, delivery schedule, encoding label incl. unknown / non-ASCII-compatible, bad selectors, tiny memory limits, Stop at a handler invocation index, free-without-end) x one create/use/free order permitted by lol_html.h (builder freed right after build or at the end, strings freed immediately or at the very end, selectors freed after builders, attribute iterators freed inside the handler); each is executed through the extern \"C\" entry points and through the Rust API and the two histories are compared; plus invalid-UTF-8 argument calls; non-trivial = at least one callback ran or an error was reported; distinct by scenario fingerprint"
+        "runs execute in child processes (AddressSanitizer/LeakSanitizer build when available) with an intent log; one run = 16 generated scenarios (document, mirrored handler scripts incl. streaming handlers with drop callbacks (writing strings, or raw UTF-8 byte pieces that end inside characters with empty pieces in between, through write_utf8_chunk) and end-tag handlers, bundled registrations, delivery schedule, encoding label incl. unknown / non-ASCII-compatible, bad selectors, tiny memory limits, Stop at a handler invocation index, free-without-end) x one create/use/free order permitted by lol_html.h (builder freed right after build or at the end, strings freed immediately or at the very end, selectors freed after builders, attribute iterators freed inside the handler); each is executed through the extern \"C\" entry points and through the Rust API and the two histories are compared; plus invalid-UTF-8 argument calls; non-trivial = at least one callback ran or an error was reported; distinct by scenario fingerprint"
     }
     fn assumptions(&self) -> Vec<&'static str> {
         vec![
